@@ -3153,7 +3153,7 @@ class TypeBlocks(ContainerOperand):
         if skipna:
             isna_self = self.isna(include_none=False) # returns type blocks
             isna_other = other.isna(include_none=False)
-            isna_both = isna_self & isna_self
+            isna_both = isna_self & isna_other
 
         start = 0
         end = 0
